@@ -307,6 +307,19 @@ def runs_beyond(fn: Callable[[], Any], max_lines: int) -> bool:
 # known findings
 
 
+def replay_directory() -> str:
+    """evidence/replay for the registered commands; scratch runs (VERIF_NO_EVIDENCE=1: seeded
+    changes, refactorings, experiments - possibly several at once) get a directory of their own
+    so that they neither delete nor overwrite each other's witnesses."""
+    if os.environ.get("VERIF_NO_EVIDENCE"):
+        d = os.environ.get("VERIF_REPLAY_DIR")
+        if not d:
+            import tempfile
+            d = os.path.join(tempfile.gettempdir(), f"verif-replay-{os.getpid()}")
+        return d
+    return os.path.join(ROOT, "evidence", "replay")
+
+
 def load_known_findings(prop: str) -> List[Dict[str, Any]]:
     path = os.path.join(ROOT, "known_findings.json")
     if not os.path.exists(path):
@@ -350,7 +363,7 @@ def finish(prop: str, tier: str, level: str, col: Collector, t0: float, rule: st
     if len(col.distinct) < 2:
         col.fail_inconclusive("fewer than two distinct non-trivial cases were observed")
 
-    replay_dir = os.path.join(ROOT, "evidence", "replay")
+    replay_dir = replay_directory()
     lines: List[str] = []
     for sig, ent in new:
         os.makedirs(replay_dir, exist_ok=True)
